@@ -19,6 +19,15 @@ Example pin_full_snippet :
   FULL_SNIPPET_SRC = ["start_idx = self._full_snippet.start - 1"; "end_idx = self._full_snippet.end";
                       "return ''.join(self.sample_lines[start_idx:end_idx])"].
 Proof. reflexivity. Qed.
+Example pin_segment_post :
+  SEGMENT_POST_SRC = ["if self._request_exec.start and (not self._request_exec.end): self._request_exec.end = self._full_snippet.end";
+                      "if not self._response_handling.start: self._response_handling.end = 0"].
+Proof. reflexivity. Qed.
+Example pin_request_object :
+  GRO_REQUIRED_SRC = "[field for field in message.required_fields if not field.oneof or field.proto3_optional]" /\
+  GRO_BRANCH_TESTS = ["field.is_primitive"; "field.enum"; "field.type in _enclosing or field.type == message"] /\
+  GRO_RECURSIVE_KWARGS = ["_enclosing=_enclosing + (message,)"; "field_name_prefix=field_name"].
+Proof. repeat split; reflexivity. Qed.
 Example pin_region_tag :
   REGION_TAG_SRC = "f'{api_short_name}_{api_version}_generated_{service_name}_{rpc_name}_{sync_or_async}'" /\
   REGION_TAG_INTERNAL_SRC = "region_tag += '_internal'".
@@ -259,6 +268,9 @@ Proof.
   rewrite skipn_all, Nat.sub_diag. simpl. rewrite firstn_app, firstn_all, Nat.sub_diag. simpl. apply app_nil_r.
 Qed.
 
+Lemma seg_finish_full a : full_s (seg_finish a) = full_s a /\ full_e (seg_finish a) = full_e a.
+Proof. split; reflexivity. Qed.
+
 (* FULL (and SHORT) = the lines strictly between the tags, whatever the lines in between are *)
 Theorem full_snippet_between_tags pre mid post tS tE :
   no_tags pre -> no_tags mid -> no_tags post -> classify tS = KStart -> classify tE = KEnd ->
@@ -268,7 +280,8 @@ Theorem full_snippet_between_tags pre mid post tS tE :
 Proof.
   intros Hp Hm Ho HS HE lines.
   assert (F : full_s (parse_segments lines) = length pre + 2 /\ full_e (parse_segments lines) = length pre + 1 + length mid).
-  { unfold parse_segments, lines. generalize (segs0 (length (pre ++ tS :: mid ++ tE :: post))). intro a0.
+  { unfold parse_segments. rewrite (proj1 (seg_finish_full _)), (proj2 (seg_finish_full _)).
+    unfold lines. generalize (segs0 (length (pre ++ tS :: mid ++ tE :: post))). intro a0.
     rewrite seg_loop_app, seg_loop_cons, HS, seg_loop_app, seg_loop_cons, HE.
     rewrite (proj1 (seg_loop_full_pres post _ _ Ho)), (proj2 (seg_loop_full_pres post _ _ Ho)).
     cbn [seg_step full_s full_e].
@@ -311,20 +324,49 @@ Proof.
   rewrite HS, HC, HR, HX, HH, HE.
   repeat (rewrite seg_loop_other; [|assumption]).
   cbn [seg_step segs0 full_s full_e ci_s ci_e ri_s ri_e re_s re_e rh_s rh_e].
-  repeat split; lia.
+  unfold seg_finish. cbn [full_s full_e ci_s ci_e ri_s ri_e re_s re_e rh_s rh_e].
+  match goal with |- context [Nat.eqb ?x 0] => idtac end.
+  repeat match goal with
+         | |- context [Nat.eqb ?x 0] => let E := fresh "E" in destruct (Nat.eqb x 0) eqn:E;
+                                        [apply Nat.eqb_eq in E | apply Nat.eqb_neq in E]
+         end; cbn [negb andb]; repeat split; lia.
 Qed.
 
-(* without a response marker (void rpcs): REQUEST_EXECUTION never gets an end and RESPONSE_HANDLING never a start *)
-Theorem segments_without_response_marker pre a b c d post tS tC tR tX tE :
+(* segments_spec for a sample WITHOUT a response marker (void rpcs): REQUEST_EXECUTION runs from its marker to the last
+   line of the snippet, the three phases are contiguous and ordered, and there is no RESPONSE_HANDLING range
+   (before /repo 9d7a09d REQUEST_EXECUTION had no end and RESPONSE_HANDLING an end without a start: DESIGN section 9 no. 20) *)
+Theorem segments_spec_without_response_marker pre a b c d post tS tC tR tX tE :
   all_other pre -> all_other a -> all_other b -> all_other c -> all_other d -> all_other post ->
   classify tS = KStart -> classify tC = KClient -> classify tR = KReqInit -> classify tX = KReqExec -> classify tE = KEnd ->
-  let g := parse_segments (pre ++ tS :: a ++ tC :: b ++ tR :: c ++ tX :: d ++ tE :: post) in
-  re_s g = length pre + 4 + length a + length b + length c /\ re_e g = 0 /\ rh_s g = 0.
+  let lines := pre ++ tS :: a ++ tC :: b ++ tR :: c ++ tX :: d ++ tE :: post in
+  let g := parse_segments lines in
+  full_snippet_lines lines = a ++ tC :: b ++ tR :: c ++ tX :: d /\
+  ci_s g = length pre + 2 + length a /\ ci_e g + 1 = ri_s g /\ ri_e g + 1 = re_s g /\ re_e g = full_e g /\
+  full_s g <= ci_s g /\ ci_s g <= ci_e g /\ ri_s g <= ri_e g /\ re_s g <= re_e g /\ rh_s g = 0 /\ rh_e g = 0.
 Proof.
-  intros Hp Ha Hb Hc Hd Ho HS HC HR HX HE g. unfold g, parse_segments.
-  repeat (rewrite seg_loop_app; simpl).
+  intros Hp Ha Hb Hc Hd Ho HS HC HR HX HE lines g.
+  assert (Kc : classify tC <> KStart /\ classify tC <> KEnd) by (rewrite HC; split; discriminate).
+  assert (Kr : classify tR <> KStart /\ classify tR <> KEnd) by (rewrite HR; split; discriminate).
+  assert (Kx : classify tX <> KStart /\ classify tX <> KEnd) by (rewrite HX; split; discriminate).
+  assert (NT : no_tags (a ++ tC :: b ++ tR :: c ++ tX :: d)).
+  { intros l Hl. repeat (apply in_app_or in Hl as [Hl|Hl]; [now apply all_other_no_tags in Hl|]; destruct Hl as [<-|Hl]; [assumption|]).
+    now apply all_other_no_tags in Hl. }
+  destruct (full_snippet_between_tags pre (a ++ tC :: b ++ tR :: c ++ tX :: d) post tS tE
+              (all_other_no_tags _ Hp) NT (all_other_no_tags _ Ho) HS HE) as (F1 & F2 & F3).
+  assert (L : lines = pre ++ tS :: (a ++ tC :: b ++ tR :: c ++ tX :: d) ++ tE :: post).
+  { unfold lines. repeat (rewrite <- app_assoc; simpl). reflexivity. }
+  split; [rewrite L; exact F3|].
+  clear F1 F2 F3 L NT Kc Kr Kx.
+  unfold g, parse_segments, lines.
+  repeat (rewrite seg_loop_app; rewrite seg_loop_cons).
   rewrite HS, HC, HR, HX, HE.
-  repeat (rewrite seg_loop_other; [|assumption]). simpl. repeat split; lia.
+  repeat (rewrite seg_loop_other; [|assumption]).
+  cbn [seg_step segs0 full_s full_e ci_s ci_e ri_s ri_e re_s re_e rh_s rh_e].
+  unfold seg_finish. cbn [full_s full_e ci_s ci_e ri_s ri_e re_s re_e rh_s rh_e].
+  repeat match goal with
+         | |- context [Nat.eqb ?x 0] => let E := fresh "E" in destruct (Nat.eqb x 0) eqn:E;
+                                        [apply Nat.eqb_eq in E | apply Nat.eqb_neq in E]
+         end; cbn [negb andb]; repeat split; try lia.
 Qed.
 
 (* ================================================================ C. docstring embedding *)
@@ -344,7 +386,7 @@ Proof.
 Qed.
 
 (* ================================================================ D. generate_request_object *)
-Definition step (k : nat) (sc : schema) (prefix : string) (acc : option (list (string * value))) (f : field) :=
+Definition step (k : nat) (sc : schema) (m prefix : string) (encl : list string) (acc : option (list (string * value))) (f : field) :=
   match acc with
   | None => None
   | Some l =>
@@ -355,36 +397,40 @@ Definition step (k : nat) (sc : schema) (prefix : string) (acc : option (list (s
                     | Some v => Some (app l [(fname, if f_repeated f then VList [VEnum v] else VEnum v)])
                     | None => None
                     end
-      | TMsg m' => match gro k sc m' fname with Some l' => Some (app l l') | None => None end
+      | TMsg m' => if mem_str m' (m :: encl) then Some l
+                   else match gro k sc m' fname (m :: encl) with Some l' => Some (app l l') | None => None end
       end
   end.
 
-Lemma gro_unfold k sc m prefix :
-  gro (S k) sc m prefix = match assoc m sc with None => None | Some fs => fold_left (step k sc prefix) (selected fs) (Some []) end.
+Lemma gro_unfold k sc m prefix encl :
+  gro (S k) sc m prefix encl =
+  match assoc m sc with None => None | Some fs => fold_left (step k sc m prefix encl) (selected fs) (Some []) end.
 Proof. reflexivity. Qed.
 
 (* what one selected field contributes *)
-Definition contrib (k : nat) (sc : schema) (prefix : string) (f : field) : option (list (string * value)) :=
-  step k sc prefix (Some []) f.
+Definition contrib (k : nat) (sc : schema) (m prefix : string) (encl : list string) (f : field) : option (list (string * value)) :=
+  step k sc m prefix encl (Some []) f.
 
-Lemma step_contrib k sc prefix l f : step k sc prefix (Some l) f = option_map (app l) (contrib k sc prefix f).
+Lemma step_contrib k sc m prefix encl l f :
+  step k sc m prefix encl (Some l) f = option_map (app l) (contrib k sc m prefix encl f).
 Proof.
   unfold contrib, step. destruct (f_type f) as [p|vs|m']; simpl.
   - reflexivity.
   - destruct (last_opt vs); reflexivity.
-  - destruct (gro k sc m' (qual prefix (f_name f))); reflexivity.
+  - destruct (String.eqb m' m || mem_str m' encl); [simpl; now rewrite app_nil_r|].
+    destruct (gro k sc m' (qual prefix (f_name f)) (m :: encl)); reflexivity.
 Qed.
 
-Lemma fold_none k sc prefix fs : fold_left (step k sc prefix) fs None = None.
+Lemma fold_none k sc m prefix encl fs : fold_left (step k sc m prefix encl) fs None = None.
 Proof. induction fs; simpl; auto. Qed.
 
-Lemma fold_step_some k sc prefix fs : forall l0 l,
-  fold_left (step k sc prefix) fs (Some l0) = Some l ->
-  incl l0 l /\ forall f, In f fs -> exists c, contrib k sc prefix f = Some c /\ incl c l.
+Lemma fold_step_some k sc m prefix encl fs : forall l0 l,
+  fold_left (step k sc m prefix encl) fs (Some l0) = Some l ->
+  incl l0 l /\ forall f, In f fs -> exists c, contrib k sc m prefix encl f = Some c /\ incl c l.
 Proof.
   induction fs as [|f fs IH]; intros l0 l H; cbn [fold_left] in H.
   - inversion H. subst. split; [apply incl_refl | intros f []].
-  - rewrite step_contrib in H. destruct (contrib k sc prefix f) as [c|] eqn:C; simpl in H.
+  - rewrite step_contrib in H. destruct (contrib k sc m prefix encl f) as [c|] eqn:C; simpl in H.
     + destruct (IH _ _ H) as [I1 I2]. split.
       * intros x Hx. apply I1. apply in_or_app. now left.
       * intros f' [<-|Hf'].
@@ -393,23 +439,22 @@ Proof.
     + rewrite fold_none in H. discriminate.
 Qed.
 
-Lemma fold_step_total k sc prefix fs : forall l0,
-  (forall f, In f fs -> contrib k sc prefix f <> None) -> fold_left (step k sc prefix) fs (Some l0) <> None.
+Lemma fold_step_total k sc m prefix encl fs : forall l0,
+  (forall f, In f fs -> contrib k sc m prefix encl f <> None) -> fold_left (step k sc m prefix encl) fs (Some l0) <> None.
 Proof.
   induction fs as [|f fs IH]; intros l0 H; cbn [fold_left]; [discriminate|].
-  rewrite step_contrib. destruct (contrib k sc prefix f) as [c|] eqn:C.
+  rewrite step_contrib. destruct (contrib k sc m prefix encl f) as [c|] eqn:C.
   - simpl. apply IH. intros f' Hf'. apply H. now right.
   - exfalso. apply (H f (or_introl eq_refl)). assumption.
 Qed.
 
-(* the hypothesis under which the recursion ends: the required/first-oneof-member edges between messages are well founded
-   (no_required_self_cycle, generalised to cycles of any length), enums have a value, message references resolve *)
-Definition well_ranked (sc : schema) (rank : string -> nat) : Prop :=
+(* what protoc guarantees of the input: message references resolve and enums have a value *)
+Definition closed (sc : schema) : Prop :=
   forall m fs f, assoc m sc = Some fs -> In f (selected fs) ->
     match f_type f with
     | TPrim _ => True
     | TEnum vs => vs <> []
-    | TMsg m' => (exists fs', assoc m' sc = Some fs') /\ rank m' < rank m
+    | TMsg m' => exists fs', assoc m' sc = Some fs'
     end.
 
 Lemma last_opt_some {A} (l : list A) : l <> [] -> last_opt l <> None.
@@ -417,47 +462,92 @@ Proof.
   induction l as [|x l IH]; intro H; [contradiction|]. simpl. destruct l; [discriminate|]. apply IH. discriminate.
 Qed.
 
-Theorem request_object_terminates sc rank :
-  well_ranked sc rank ->
-  forall fuel m fs prefix, assoc m sc = Some fs -> rank m < fuel -> gro fuel sc m prefix <> None.
+(* the termination measure: how many messages of the schema are not yet enclosing *)
+Definition outside (encl : list string) (names : list string) : nat :=
+  length (filter (fun k => negb (mem_str k encl)) names).
+
+Lemma outside_decreases x encl names :
+  In x names -> mem_str x encl = false -> outside (x :: encl) names < outside encl names.
 Proof.
-  intros W fuel. induction fuel as [|k IH]; intros m fs prefix Hm Hr; [lia|].
+  unfold outside. induction names as [|y names IH]; intros Hin Hx; [contradiction|].
+  cbn [filter]. unfold mem_str at 1. cbn [existsb]. fold (mem_str y encl).
+  destruct Hin as [->|Hin].
+  - rewrite String.eqb_refl. cbn [orb negb]. rewrite Hx. cbn [negb length].
+    assert (L : forall l, length (filter (fun k => negb (mem_str k (x :: encl))) l) <= length (filter (fun k => negb (mem_str k encl)) l)).
+    { induction l as [|z l IHl]; [auto|]. cbn [filter]. unfold mem_str at 1. cbn [existsb]. fold (mem_str z encl).
+      destruct (String.eqb z x); cbn [orb negb]; destruct (mem_str z encl); cbn [negb length]; lia. }
+    specialize (L names). lia.
+  - specialize (IH Hin Hx).
+    destruct (String.eqb y x); cbn [orb negb]; destruct (mem_str y encl); cbn [negb length]; lia.
+Qed.
+
+Lemma assoc_in_keys {A} k (l : list (string * A)) v : assoc k l = Some v -> In k (map fst l).
+Proof.
+  induction l as [|[k' v'] l IH]; simpl; [discriminate|].
+  destruct (String.eqb k k') eqn:E; [apply String.eqb_eq in E; subst; now left | intro H; right; now apply IH].
+Qed.
+
+(* since /repo 40893b0 the recursion ends for EVERY closed schema: a nested call is only made for a message that is not
+   yet enclosing, so the nesting depth is bounded by the number of messages *)
+Theorem request_object_terminates_general sc :
+  closed sc ->
+  forall fuel m fs prefix encl, assoc m sc = Some fs -> outside (m :: encl) (map fst sc) < fuel ->
+  gro fuel sc m prefix encl <> None.
+Proof.
+  intros W fuel. induction fuel as [|k IH]; intros m fs prefix encl Hm Hr; [lia|].
   rewrite gro_unfold, Hm. apply fold_step_total. intros f Hf.
   pose proof (W m fs f Hm Hf) as Wf. unfold contrib, step. destruct (f_type f) as [p|vs|m'].
   - discriminate.
   - destruct (last_opt vs) eqn:L; [discriminate|]. exfalso. now apply (last_opt_some vs).
-  - destruct Wf as [(fs' & Hm') Hlt].
-    destruct (gro k sc m' (qual prefix (f_name f))) eqn:G; [discriminate|].
-    exfalso. apply (IH m' fs' (qual prefix (f_name f)) Hm'); [lia | assumption].
+  - destruct (mem_str m' (m :: encl)) eqn:M; [discriminate|].
+    destruct Wf as (fs' & Hm').
+    destruct (gro k sc m' (qual prefix (f_name f)) (m :: encl)) eqn:G; [discriminate|].
+    exfalso. apply (IH m' fs' (qual prefix (f_name f)) (m :: encl) Hm'); [|assumption].
+    pose proof (outside_decreases m' (m :: encl) (map fst sc) (assoc_in_keys _ _ _ Hm') M). lia.
 Qed.
 
-(* DESIGN section 9 no. 10: a REQUIRED field of the enclosing message's own type — no amount of fuel suffices *)
-Definition self_schema : schema := [("Node", [mkF "name" (TPrim PStr) false true None false; mkF "parent" (TMsg "Node") false true None false])].
-Theorem request_object_terminates_refuted :
-  exists sc m fs, assoc m sc = Some fs /\ forall fuel prefix, gro fuel sc m prefix = None.
+Lemma outside_le encl names : outside encl names <= length names.
+Proof. unfold outside. induction names as [|y names IH]; [auto|]. cbn [filter]. destruct (negb (mem_str y encl)); cbn [length]; lia. Qed.
+
+Theorem request_object_terminates sc m fs prefix :
+  closed sc -> assoc m sc = Some fs -> gro (S (length sc)) sc m prefix [] <> None.
 Proof.
-  exists self_schema, "Node", [mkF "name" (TPrim PStr) false true None false; mkF "parent" (TMsg "Node") false true None false].
-  split; [reflexivity|]. intro fuel. induction fuel as [|k IH]; intro prefix; [reflexivity|].
-  rewrite gro_unfold. simpl. rewrite IH. reflexivity.
+  intros W Hm. apply (request_object_terminates_general sc W _ m fs prefix [] Hm).
+  pose proof (outside_le [m] (map fst sc)). rewrite map_length in H. lia.
 Qed.
 
-(* every selected field (first member of each real oneof, required fields outside oneofs) is covered by the result:
-   a primitive or enum field by an entry under its qualified name, a message field by the entries of the recursive call *)
-Theorem request_covers_required_and_oneofs k sc m fs prefix l :
-  assoc m sc = Some fs -> gro (S k) sc m prefix = Some l ->
+(* the former witness of DESIGN section 9 no. 10 (a REQUIRED field of the enclosing message's own type): it now stops there *)
+Definition self_schema : schema := [("Node", [mkF "name" (TPrim PStr) false true None false; mkF "parent" (TMsg "Node") false true None false])].
+Example self_schema_terminates :
+  gro 2 self_schema "Node" "" [] = Some [("name", VStr "name_value")].
+Proof. vm_compute. reflexivity. Qed.
+Example self_schema_closed : closed self_schema.
+Proof.
+  intros m fs f Hm Hf. unfold self_schema in Hm. simpl in Hm.
+  destruct (String.eqb m "Node"); [|discriminate]. inversion Hm. subst fs. simpl in Hf.
+  destruct Hf as [<-|[<-|[]]]; simpl; [exact I | eexists; reflexivity].
+Qed.
+
+(* every selected field (first member of each real oneof, required fields outside real oneofs) is covered by the result:
+   a primitive or enum field by an entry under its qualified name, a message field by the entries of the recursive call —
+   unless its type is the message itself or an enclosing one, where the request stops *)
+Theorem request_covers_required_and_oneofs k sc m fs prefix encl l :
+  assoc m sc = Some fs -> gro (S k) sc m prefix encl = Some l ->
   forall f, In f (selected fs) ->
     match f_type f with
     | TPrim p => In (qual prefix (f_name f), prim_value f p) l
     | TEnum vs => exists v, last_opt vs = Some v /\ In (qual prefix (f_name f), if f_repeated f then VList [VEnum v] else VEnum v) l
-    | TMsg m' => exists l', gro k sc m' (qual prefix (f_name f)) = Some l' /\ incl l' l
+    | TMsg m' => mem_str m' (m :: encl) = true \/
+                 exists l', gro k sc m' (qual prefix (f_name f)) (m :: encl) = Some l' /\ incl l' l
     end.
 Proof.
   intros Hm G f Hf. rewrite gro_unfold, Hm in G.
-  destruct (fold_step_some _ _ _ _ _ _ G) as [_ C]. destruct (C f Hf) as (c & Cc & Ic).
+  destruct (fold_step_some _ _ _ _ _ _ _ _ G) as [_ C]. destruct (C f Hf) as (c & Cc & Ic).
   unfold contrib, step in Cc. destruct (f_type f) as [p|vs|m'].
   - inversion Cc. subst c. apply Ic. now left.
   - destruct (last_opt vs) as [v|]; [|discriminate]. exists v. split; [reflexivity|]. inversion Cc. subst c. apply Ic. now left.
-  - destruct (gro k sc m' (qual prefix (f_name f))) as [l'|]; [|discriminate]. exists l'. split; [reflexivity|].
+  - destruct (mem_str m' (m :: encl)) eqn:M; [now left|]. right.
+    destruct (gro k sc m' (qual prefix (f_name f)) (m :: encl)) as [l'|]; [|discriminate]. exists l'. split; [reflexivity|].
     inversion Cc. subst c. exact Ic.
 Qed.
 
@@ -494,13 +584,15 @@ Proof.
   - destruct Hin as [->|Hin]; [congruence|]. apply (IH seen o f); auto.
 Qed.
 
-(* every real oneof of the message has exactly its first member selected, and every required field outside a oneof is selected *)
+(* every real oneof of the message has its first member selected, and every required field outside a real oneof is
+   selected — proto3 `optional` ones included since /repo 42d2b00 *)
 Theorem selected_spec fs :
-  (forall f, In f fs -> f_required f = true -> f_oneof f = None -> In f (selected fs)) /\
+  (forall f, In f fs -> f_required f = true -> f_oneof f = None \/ f_p3opt f = true -> In f (selected fs)) /\
   (forall f o, In f fs -> real_oneof f = Some o -> exists g, In g (selected fs) /\ real_oneof g = Some o).
 Proof.
   unfold selected. split.
-  - intros f H1 H2 H3. apply in_or_app. right. apply filter_In. split; [assumption|]. unfold required_plain. now rewrite H2, H3.
+  - intros f H1 H2 H3. apply in_or_app. right. apply filter_In. split; [assumption|]. unfold required_plain. rewrite H2.
+    destruct H3 as [H3|H3]; rewrite H3; [reflexivity | apply orb_true_r].
   - intros f o H1 H2. destruct (first_of_groups_covers fs [] o f H1 H2) as (g & G1 & G2); [intros []|].
     exists g. split; [apply in_or_app; now left | assumption].
 Qed.
@@ -512,7 +604,7 @@ Definition unset_schema : schema :=
    ("Book", [mkF "title" (TPrim PStr) false false None false])].
 Theorem required_message_field_populated_refuted :
   exists sc m fs f l, assoc m sc = Some fs /\ In f fs /\ f_required f = true /\ f_oneof f = None /\
-                      gro 5 sc m "" = Some l /\ forall e, In e l -> starts_with (f_name f) (fst e) = false.
+                      gro 5 sc m "" [] = Some l /\ forall e, In e l -> starts_with (f_name f) (fst e) = false.
 Proof.
   exists unset_schema, "CreateRequest",
          [mkF "parent" (TPrim PStr) false true None false; mkF "book" (TMsg "Book") false true None false],
@@ -535,9 +627,9 @@ Theorem response_marker_iff lro paged cs ss void :
   has_response_marker (method_default lro paged cs ss) void = false <-> lro = false /\ paged = false /\ ss = false /\ void = true.
 Proof. destruct lro, paged, cs, ss, void; simpl; split; intro H; try discriminate; try tauto; destruct H as (?&?&?&?); discriminate. Qed.
 
-(* the asyncio sample does not await the call for paged and LRO rpcs *)
+(* the asyncio sample awaits the call for every form but LRO (the paged call too since /repo c4938a6) *)
 Theorem call_awaited_spec lro paged cs ss :
-  call_awaited true (method_default lro paged cs ss) = negb (lro || paged).
+  call_awaited true (method_default lro paged cs ss) = negb lro.
 Proof. destruct lro, paged, cs, ss; reflexivity. Qed.
 
 (* ================================================================ non-vacuity *)
@@ -577,21 +669,20 @@ Definition ex_schema : schema :=
             mkF "by_range" (TMsg "Range") false false (Some "span") false; mkF "by_text" (TPrim PStr) false false (Some "span") false;
             mkF "mode" (TEnum ["MODE_UNSPECIFIED"; "MODE_FAST"]) true true None false;
             mkF "nick" (TPrim PStr) false true (Some "_nick") true;
+            mkF "self" (TMsg "Req") false true None false;
             mkF "spec" (TMsg "Spec") false true None false]);
    ("Range", [mkF "low" (TPrim PInt) false true None false; mkF "high" (TPrim PInt) false false None false]);
    ("Spec", [mkF "label" (TPrim PStr) false true None false; mkF "weights" (TPrim PInt) true true None false])].
-Definition ex_rank (m : string) : nat := if String.eqb m "Req" then 1 else 0.
 Example ex_request :
-  gro 3 ex_schema "Req" "" =
-  Some [("by_range.low", VInt 338); ("name", VStr "name_value"); ("mode", VList [VEnum "MODE_FAST"]);
+  gro 3 ex_schema "Req" "" [] =
+  Some [("by_range.low", VInt 338); ("name", VStr "name_value"); ("mode", VList [VEnum "MODE_FAST"]); ("nick", VStr "nick_value");
         ("spec.label", VStr "label_value"); ("spec.weights", VList [VInt 764; VInt 765])].
 Proof. vm_compute. reflexivity. Qed.
-Example ex_well_ranked : well_ranked ex_schema ex_rank.
+Example ex_closed : closed ex_schema.
 Proof.
   intros m fs f Hm Hf. unfold ex_schema in Hm. simpl in Hm.
-  destruct (String.eqb m "Req") eqn:E1; [apply String.eqb_eq in E1; subst m; inversion Hm; subst fs; clear Hm|].
-  - simpl in Hf. destruct Hf as [<-|[<-|[<-|[<-|[]]]]]; simpl; try exact I; try discriminate;
-      (split; [eexists; reflexivity | unfold ex_rank; simpl; lia]).
+  destruct (String.eqb m "Req") eqn:E1; [inversion Hm; subst fs; clear Hm|].
+  - simpl in Hf. destruct Hf as [<-|[<-|[<-|[<-|[<-|[<-|[]]]]]]]; simpl; try exact I; try discriminate; eexists; reflexivity.
   - destruct (String.eqb m "Range") eqn:E2; [inversion Hm; subst fs; simpl in Hf; destruct Hf as [<-|[]]; exact I|].
     destruct (String.eqb m "Spec") eqn:E3; [|discriminate].
     inversion Hm; subst fs; simpl in Hf; destruct Hf as [<-|[<-|[]]]; exact I.
